@@ -198,6 +198,10 @@ CONTRACTS += [_big.contract("C01"), _big.bsdi_key_contract("C01")]
 from contracts import misc_quick as _mq  # noqa: E402
 
 CONTRACTS += _mq.htdigest_hash  # text and encoded bytes of a password denote the same password under the context encoding
+from contracts import c20_libpass as _lp  # noqa: E402
+
+CONTRACTS += _lp.CONTRACTS[:2]  # libpass PBKDF2 hasher: hash / verify
+LEMMAS += _lp.LEMMAS
 BOUNDED = [Bounded("c01", "harness/c01.py", descr="every registered hasher x password/settings grid x near misses", timeout=900)]
 
 MUTANTS = [
